@@ -63,6 +63,19 @@ fn add_x<N: Analysis<T>>(eg: &mut EGraph<T, N>, ex: RecExpr<T>) -> AppliedId {
 }
 static SYN_ADD: std::sync::OnceLock<bool> = std::sync::OnceLock::new();
 
+/// C09: "the returned invocation's slots are the term's free slots minus those proven redundant" - judged on the VALUE that
+/// add / add_expr returns (eq, find and lookup trim surplus arguments): every slot it mentions is a free slot of the term
+fn returned_slots_ok(h: &AppliedId, term: &Term, nm: &Naming) -> Result<(), String> {
+    let fv = term.fv();
+    for s in h.slots() {
+        match nm.name(s) {
+            Some(k) if fv.contains(&k) => {}
+            _ => return Err(format!("{:?}", h)),
+        }
+    }
+    Ok(())
+}
+
 trait AnKind: Analysis<T> + Default + 'static {
     const NAME: &'static str;
     fn datum(eg: &EGraph<T, Self>, id: Id) -> Option<(u64, u64)>;
@@ -270,7 +283,13 @@ impl<'a> PathRun<'a> {
             for t in base {
                 let ex = self.pool_expr(t);
                 match guard(|| add_x(&mut eg, ex)) {
-                    Ok(h) => handles.push((ctx.pool_ui[t - 1], h)),
+                    Ok(h) => {
+                        if let Err(d) = returned_slots_ok(&h, &ctx.uni.terms[t - 1], self.nm) {
+                            self.finding("C09", "add_expr returned an invocation with a slot that is not a free slot of the term", &full_key, path, 0, "",
+                                json!({"term": ctx.uni.terms[t-1].show(), "returned": d}));
+                        }
+                        handles.push((ctx.pool_ui[t - 1], h))
+                    }
                     Err(p) => {
                         self.stats.panics += 1;
                         self.finding("C08", "panic in add_expr", &full_key, path, 0, &site_key(&p),
@@ -329,6 +348,12 @@ impl<'a> PathRun<'a> {
                     return None;
                 }
             };
+            for (t, h) in [(a, &ia), (b, &ib)] {
+                if let Err(d) = returned_slots_ok(h, &ctx.uni.terms[t - 1], self.nm) {
+                    self.finding("C09", "add_expr returned an invocation with a slot that is not a free slot of the term", &key, path, step + 1, "",
+                        json!({"term": ctx.uni.terms[t-1].show(), "returned": d}));
+                }
+            }
             if self.quiet && step + 1 < path.len() {
                 handles.push((ctx.pool_ui[a - 1], ia));
                 handles.push((ctx.pool_ui[b - 1], ib));
@@ -1095,6 +1120,10 @@ impl<'a> PathRun<'a> {
                     return;
                 }
                 Ok((h, same)) => {
+                    if let Err(d) = returned_slots_ok(&h, &ctx.us[i], self.nm) {
+                        self.finding("C09", "add_expr returned an invocation with a slot that is not a free slot of the term", key, path, step, "",
+                            json!({"term": ctx.us[i].show(), "returned": d}));
+                    }
                     let after = (progress_of(eg), eg.total_number_of_nodes());
                     if before != after {
                         self.finding("C09", "inserting a represented term changed the e-graph", key, path, step, "",
